@@ -173,6 +173,14 @@ def make_app_classes():
                            dl=len(value.data or b''), ml=len(value.metadata or b''))
             if self.on_next_hook is not None:
                 self.on_next_hook(self, pid, is_complete)
+            self.seen = getattr(self, 'seen', 0) + 1
+            ck = getattr(self, 'cancel_in_next', 0)
+            if ck and self.seen == ck and self.subscription is not None and not is_complete and not (self.cancelled or self.terminated):
+                # the subscriber gives up from inside on_next (take(n) style)
+                self.cancelled = True
+                self.w.rec.log(self.ep, 'app_cancel', iid=self.iid, role=self.role)
+                self.subscription.cancel()
+                return      # (a subscriber that has just given up does not ask for more in the same breath)
             k = getattr(self, 'auto_request', 0)
             if k and self.subscription is not None and not is_complete and (self.w.opts.get('late_actions') or not (self.cancelled or self.terminated)):
                 # the common pattern of replenishing credit from inside on_next (what CollectorSubscriber does)
@@ -218,6 +226,22 @@ def make_app_classes():
             self.w.rec.log(self.ep, 'cb_pub_request', iid=self.iid, n=n, role=self.role)
             if 'request' in self.raise_in:
                 raise RuntimeError('app: subscription.request raised')
+            sync = getattr(self, 'sync_items', None)
+            if sync is not None and not getattr(self, '_in_sync', False):
+                # an in-memory publisher: it emits what was requested synchronously, from inside request(n) (re-entrantly: the
+                # library is in the middle of handling the REQUEST_N / request frame)
+                self._in_sync = True
+                try:
+                    k = n
+                    while k > 0 and sync and self.legal():
+                        d, m = sync.pop(0)
+                        last = not sync
+                        self.emit(d, m, complete=bool(last and self.sync_complete_on_last))
+                        k -= 1
+                    if not sync and self.legal() and not self.sync_complete_on_last:
+                        self.complete()
+                finally:
+                    self._in_sync = False
 
         def cancel(self):
             self.cancelled = True
@@ -487,7 +511,11 @@ class World:
         """the stream source a handler (or a channel requester) hands to the library"""
         src = pol.get('src', 'scripted')
         if src == 'scripted':
-            return self.RecPublisher(self, ep, iid, role, pol.get('pub_raise_in'))
+            pub = self.RecPublisher(self, ep, iid, role, pol.get('pub_raise_in'))
+            if pol.get('sync') is not None:
+                pub.sync_items = [list(x) for x in pol['sync']]
+                pub.sync_complete_on_last = bool(pol.get('complete_on_last', True))
+            return pub
         items = pol.get('items', [])
         col = pol.get('complete_on_last', True)
         delay = timedelta(milliseconds=pol.get('delay_ms', 0))
@@ -1155,6 +1183,7 @@ class World:
             sub = self.RecSubscriber(self, ep, pid, 'req', sub_raise_in)
             sub.auto_request = (policy or {}).get('auto_request', 0)
             sub.in_subscribe = (policy or {}).get('in_subscribe')
+            sub.cancel_in_next = (policy or {}).get('cancel_in_next', 0)
         it['sub'] = sub
         if subscribe:
             self.subscribe(pid)
@@ -1190,6 +1219,7 @@ class World:
             sub = self.RecSubscriber(self, ep, pid, 'req')
             sub.auto_request = (policy or {}).get('auto_request', 0)
             sub.in_subscribe = (policy or {}).get('in_subscribe')
+            sub.cancel_in_next = (policy or {}).get('cancel_in_next', 0)
         it['sub'] = sub
         if subscribe:
             self.subscribe(pid)
